@@ -386,6 +386,7 @@ PROPS["C15"] = {
 }
 
 HOOK_COMMITS.append("f14078153")
+HOOK_COMMITS.append("2003f06ff")
 
 PROPS["C14"] = {
     "module": "GstProofs.Props.C14",
@@ -414,15 +415,22 @@ PROPS["C17"] = {
     "module": "GstProofs.Props.C17",
     "theorems": [
         "GstProofs.C17.truncated_psd", "GstProofs.C17.trunc_nonneg", "GstProofs.C17.clamp_within", "GstProofs.C17.clamp_idem",
+        "GstProofs.C17.decode_encode", "GstProofs.C17.encode_injective", "GstProofs.C17.encode_range",
+        "GstProofs.C17.cget_sound", "GstProofs.C17.cget_complete", "GstProofs.C17.equal_answers",
+        "GstProofs.C17.affect_bounds", "GstProofs.C17.mergeLower_ge", "GstProofs.C17.mergeLower_ge_new",
+        "GstProofs.C17.mergeUpper_le", "GstProofs.C17.mergeUpper_le_new",
+        "GstProofs.C17.affect_within", "GstProofs.C17.affect_within_needs_side", "GstProofs.C17.affect_lower_only",
+        "GstProofs.C17.affect_upper_only", "GstProofs.C17.equality_fixes",
+        "GstProofs.C17.compress_defined", "GstProofs.C17.compress_sublist", "GstProofs.C17.compress_keeps",
     ],
     "harnesses": ["vh_c17"],
     "level": "proof",
-    "technique": "Lean 4 theorems on the two mechanisms that make a fitted model valid whatever the input: a matrix of sills rebuilt from an eigen-basis with truncated (non-negative) eigenvalues is positive semi-definite (Mathlib matrices, any number of variables); a parameter clamped into its bounds satisfies them. Output validation of the real fitting on generated experimental variograms (smooth, pure noise, constant, periodic, very few pairs; 1-2 variables, 1-2 directions), random structures, constraints and options: every returned model is judged by the Lean driver (exact PSD certificate of each sill matrix, strictly positive ranges, each user constraint, isotropy / locked rotation, save + reload + kriging)",
-    "level_text": "Partial proof: the theorems cover the sill truncation and the clamping mechanisms, not the optimiser (Gauss-Newton 'foxleg') nor its parameter bookkeeping; that whatever the optimiser returns is valid is checked on the library per instance.",
+    "technique": "Lean 4 theorems on the two mechanisms that make a fitted model valid whatever the input: a matrix of sills rebuilt from an eigen-basis with truncated (non-negative) eigenvalues is positive semi-definite (Mathlib matrices, any number of variables); a parameter clamped into its bounds satisfies them; executable model of the parameter bookkeeping of src/Core/model_auto.cpp (packing of the five designators of a parameter into one identifier, look-up of the user's constraints, merge of a constraint into bounds and initial value, compression of undefined parameters) with round-trip / injectivity / no-overflow / soundness / within-bounds theorems, tied to the library's own static functions through a GSTLEARN_VERIF hook (exact differential run). Output validation of the real fitting on generated experimental variograms (smooth, pure noise, constant, periodic, very few pairs; 1-2 variables, 1, 2 or 4 directions), random structures, constraints and options: every returned model is judged by the Lean driver (exact PSD certificate of each sill matrix, strictly positive ranges, each user constraint, isotropy / locked rotation, save + reload + kriging)",
+    "level_text": "Partial proof: the theorems cover the sill truncation, the clamping mechanism and the parameter bookkeeping that carries the user's constraints to the optimiser (identifiers, look-up, merge into bounds and initial value, compression), not the optimiser (Gauss-Newton 'foxleg') itself; that whatever the optimiser returns is valid is checked on the library per instance.",
     "level_note": "Trusted: Lean kernel + 3 standard axioms; exact LDLt certificate. Known findings F79 (Matern parameter above 100 -> NaN covariance) and F80 (zero-sill model for a constant variable) are reported on the current tree. Contradictory user constraints are not generated.",
-    "rule": "60 (quick) / 1500 (thorough) configurations: 6-80 points in 2-D, 5 data shapes, 1-2 variables, 1-2 directions of 4-10 lags, 1-3 structures among nugget / spherical / exponential / Gaussian / cubic / Matern / linear, 0-3 non-contradictory constraints (range or sill bounds, range equality), anisotropy and rotation allowed or not. distinct = distinct request line",
+    "rule": "60 (quick) / 1500 (thorough) configurations: 6-80 points in 2-D, 5 data shapes, 1-2 variables, 1, 2 or 4 directions of 4-10 lags, 1-3 structures among nugget / spherical / exponential / Gaussian / cubic / Matern / linear, 0-4 non-contradictory constraints (range, sill, rotation-angle and third-parameter bounds and equalities, intervals of negative angles included; only on parameters the library infers), anisotropy and rotation allowed or not, one rotation shared by all structures or not; plus 1500 (quick) / 20000 (thorough) calls of each bookkeeping function through the hook (packing, merge with every defined/undefined combination, look-up in lists with several items for one parameter, compression). distinct = distinct request line",
     "trivial": lambda line: False,
     "trusted_base": TB_COMMON + ["exact LDLt certificate checker"],
-    "uncovered": ["variogram-map fitting", "the optimiser itself", "constraints on angles / parameters / tapering", "3-D"],
+    "uncovered": ["variogram-map fitting", "the optimiser itself", "constraints on tapering ranges", "3-D", "the list of parameters inferred for a given set of options (st_parid_alloc) is exercised through the fits, not modelled"],
     "assumptions": ["user constraints are mutually compatible"],
 }
